@@ -305,6 +305,28 @@ def run(prop, seed, budget, ctx):
                                              why=["older-dialect-and-2020-12-schema-disagree-on-an-instance"]))
             else:
                 evaluations += 1; hist[ver] += 1
+    if prop == "C18":
+        # properties that exist on one side only (a serialized method: read-only; a field skipped by serialization: write-only) in definitions merged from
+        # both sides: the merged property schemas are converted like every other level
+        from apischema.json_schema import definitions_schema
+        one_src = ["from dataclasses import dataclass, field", "from typing import *", "from apischema import serialized", "from apischema.metadata import skip", ""]
+        rets = ["Tuple[int, str]", "Optional[int]", "Literal['only']", "Optional[Tuple[int, int]]", "List[Optional[str]]"]
+        for i, rt in enumerate(rets):
+            one_src += ["@dataclass", f"class OS{i}:", "    a: int = 0", f"    w: {rt} = field(default=None, metadata=skip(serialization=True))",
+                        "    @serialized", f"    def r(self) -> {rt}: ...", ""]
+        ons = dict(vars(build_module(one_src, f"c18oneside_{seed}")))
+        for i, rt in enumerate(rets):
+            for ver in ("DRAFT_7", "DRAFT_2019_09", "OPEN_API_3_0", "OPEN_API_3_1"):
+                evaluations += 1; distinct.add(("one-sided", i, ver)); hist["definitions:one-sided-properties"] += 1
+                try: ds = dict(definitions_schema(deserialization=[ons[f"OS{i}"]], serialization=[ons[f"OS{i}"]], version=getattr(JsonSchemaVersion, ver), all_refs=True))
+                except Exception as e:
+                    failures.append({"kind": "P", "part": "one-sided", "features": ["definitions"], "py": f"OS{i}", "src": one_src, "version": ver, "why": ["definitions_schema-raises:" + type(e).__name__], "k_ok": None}); continue
+                bad = keywords({"definitions": ds}) & VOCAB_BY_VERSION[ver]
+                if ver == "OPEN_API_3_0" and [x for x in all_types(ds) if not isinstance(x, str)]: bad = bad | {"type-list"}
+                if ver == "OPEN_API_3_0" and "const" in json.dumps(ds): bad = bad | {"const"}
+                if bad:
+                    failures.append({"kind": "P", "part": "one-sided", "features": ["definitions"], "py": f"OS{i}", "returns": rt, "version": ver, "real": ds,
+                                     "why": ["keyword-outside-the-target-vocabulary:" + ",".join(sorted(bad))], "k_ok": None})
     if prop in ("C06", "C07"):
         import rec_conv
         rf, rn, rd, rh = rec_conv.run_part(prop, seed, budget)
@@ -390,8 +412,8 @@ def replay(prop, case, ctx):
     from apischema import deserialize, serialize, ValidationError, settings
     from apischema.json_schema import deserialization_schema, serialization_schema, JsonSchemaVersion
     from common import proto_py
-    if case.get("part") == "recursive-conversions":
-        return {k: v for k, v in case.items() if k not in ("kind", "k_ok", "features")}
+    if case.get("part") in ("recursive-conversions", "one-sided"):
+        return {k: v for k, v in case.items() if k not in ("kind", "k_ok", "features", "src")}
     if case.get("part") == "converted":
         return {"type": case["py"], "class": case.get("class_src"), "conversion": case["conversion"], "mode": case["mode"], "value": case["value"], "serialized": case["serialized"],
                 "schema": case["real"], "recorded": case["why"]}
